@@ -391,7 +391,7 @@ theorem sliceWrap_ok {cfg : Cfg} {tag : String} {b : Bool} {c' c : Ty}
 theorem mapArm_ok {tag : String} {v : TyDef} {rk rv : Res Ty} {c : Ty}
     (h : mapArm tag v rk rv = .ok c) :
     v.kind ≠ .map ∧ ∃ kc vc, rk = .ok kc ∧ rv = .ok vc ∧ vc.isProtoSlice = false ∧
-      c = .map kc vc (tag == "proto") := by
+      kc.isProtoSlice = false ∧ c = .map kc vc (tag == "proto") := by
   unfold mapArm at h
   by_cases hk : v.kind = .map
   · simp [hk] at h
@@ -401,7 +401,7 @@ theorem mapArm_ok {tag : String} {v : TyDef} {rk rv : Res Ty} {c : Ty}
     cases hp : vc.isProtoSlice
     · cases hq : kc.isProtoSlice
       · simp [hp, hq] at h
-        exact ⟨hk, _, _, rfl, rfl, hp, h.symm⟩
+        exact ⟨hk, _, _, rfl, rfl, hp, hq, h.symm⟩
       · simp [hp, hq] at h
     · simp [hp] at h
 
@@ -687,7 +687,7 @@ theorem sliceArm_sound {cfg : Cfg} {tag : String} {t : TyDef} {r : Res Ty} {c : 
     cases hm : c'.isMap
     · rfl
     · exact absurd (i.map hm) hk
-  rcases sliceWrap_ok hw with ⟨hwt, rfl⟩ | ⟨hwt, hb, rfl⟩ | ⟨hwt, _, rfl | rfl⟩
+  rcases sliceWrap_ok hw with ⟨hwt, rfl⟩ | ⟨hwt, hb, rfl⟩ | ⟨hwt, hps, rfl | rfl⟩
   · exact ⟨⟨i.wf, hwt, hnm⟩, rfl, rfl⟩
   · refine ⟨?_, rfl, rfl⟩
     simp only [Ty.wf]
@@ -695,17 +695,17 @@ theorem sliceArm_sound {cfg : Cfg} {tag : String} {t : TyDef} {r : Res Ty} {c : 
     cases hf : c'.isFloatPtr
     · rfl
     · simp [i.fptr hf] at hb
-  · exact ⟨⟨i.wf, hwt, hnm⟩, rfl, rfl⟩
-  · exact ⟨⟨i.wf, hwt, hnm⟩, rfl, rfl⟩
+  · exact ⟨⟨i.wf, hwt, hnm, hps⟩, rfl, rfl⟩
+  · exact ⟨⟨i.wf, hwt, hnm, hps⟩, rfl, rfl⟩
 
 theorem mapArm_sound {tag : String} {k v : TyDef} {rk rv : Res Ty} {c : Ty}
     (hkey : k.kind ≠ .map)
     (ihk : ∀ c', rk = .ok c' → Inv k c') (ihv : ∀ c', rv = .ok c' → Inv v c')
     (h : mapArm tag v rk rv = .ok c) : c.wf ∧ c.isMap = true ∧ c.isFloatPtr = false := by
-  obtain ⟨hk, kc, vc, hrk, hrv, _, rfl⟩ := mapArm_ok h
+  obtain ⟨hk, kc, vc, hrk, hrv, hpv, hpk, rfl⟩ := mapArm_ok h
   have ik := ihk kc hrk
   have iv := ihv vc hrv
-  refine ⟨⟨ik.wf, iv.wf, ?_, ?_⟩, rfl, rfl⟩
+  refine ⟨⟨ik.wf, iv.wf, ?_, ?_, hpv, hpk⟩, rfl, rfl⟩
   · cases hm : kc.isMap
     · rfl
     · exact absurd (ik.map hm) hkey
@@ -912,7 +912,7 @@ theorem buildNamed_kind_map (cfg : Cfg) (n : String) : (d : TyDef) → (tag : St
     d.kind = .map → buildNamed cfg n d tag = .ok c → c.isMap = true
   | .map k v, tag, c, _, h => by
     rw [buildNamed_map] at h
-    obtain ⟨_, kc, vc, _, _, _, rfl⟩ := mapArm_ok h; rfl
+    obtain ⟨_, kc, vc, _, _, _, _, rfl⟩ := mapArm_ok h; rfl
   | .named m t, tag, c, hk, h => by
     rw [buildNamed] at h
     exact buildNamed_kind_map cfg n t tag c hk h
@@ -929,7 +929,7 @@ theorem build_kind_map {cfg : Cfg} {d : TyDef} {tag : String} {c : Ty} (hk : d.k
   cases d with
   | map k v =>
     rw [build_map] at h
-    obtain ⟨_, kc, vc, _, _, _, rfl⟩ := mapArm_ok h; rfl
+    obtain ⟨_, kc, vc, _, _, _, _, rfl⟩ := mapArm_ok h; rfl
   | named m t =>
     rw [build_named, hreg] at h
     exact buildNamed_kind_map cfg m t tag c hk h
